@@ -3245,6 +3245,25 @@ PROPERTY FailedPurgeChangesNothing
         one_app = len(set(op.get('app') for op in r['hist'] if op.get('app'))) == 1
         by_feat.setdefault((shape, one_app), []).append(r)
     chosen = []
+    # a purge that has ONLY a signature entry to remove: every model of an app went first (dropall +
+    # upgrade), the app itself afterwards; a fixed share of the budget, whatever the seed
+    def _emptied(r):
+        ops = r['hist']
+        for i, op in enumerate(ops):
+            if op['op'] == 'dropall':
+                a = op['app']
+                later = ops[i + 1:]
+                ev = [j for j, o in enumerate(later) if o['op'] == 'evolve']
+                un = [j for j, o in enumerate(later) if o['op'] == 'uninstall' and o.get('app') == a]
+                if ev and un and ev[0] < un[0] and any(
+                        o['op'] == 'evolve' and o.get('purge') for o in later[un[0] + 1:]):
+                    return True
+        return False
+    emptied = [r for r in full if _emptied(r) and not any(op['op'] == 'tamper' for op in r['hist'])]
+    chosen += emptied[:8 if tier == 'quick' else 40]
+    taken = set(id(r) for r in chosen)
+    for k in by_feat:
+        by_feat[k] = [r for r in by_feat[k] if id(r) not in taken]
     # a third of the budget for histories with a failing purge (fault), the rest for the others
     def _faulty(shape_key):
         return any(o == 'tamper' for o, _ in shape_key[0])
